@@ -53,6 +53,23 @@ def normal_summary(I):
     I.hooks[("experimental.misc", "normal_cdf")] = cdf
     I.hooks[("experimental.misc", "normal_pdf")] = pdf_
 
+    def binom(I_, selfobj, args, kw):
+        """misc.binom(n, k) (exp / gammaln / round) is replaced by the binomial coefficient for a concrete n and a constant column k"""
+        from .intrinsics import const_rows, rows_to_val
+        from math import comb
+        from .interp import is_num
+        n, k = args
+        if not (is_num(n) and D(n).is_const() and D(n).value().denominator == 1):
+            raise nf.Undecided("binom with a non-concrete upper argument")
+        n = int(D(n).value())
+        if is_num(k):
+            return comb(n, int(D(k).value()))
+        rows = const_rows(k)
+        if rows is None or any(r.denominator != 1 or r < 0 for r in rows):
+            raise nf.Undecided("binom with a non-constant lower argument")
+        return rows_to_val([comb(n, int(r)) for r in rows], k)
+    I.hooks[("experimental.misc", "binom")] = binom
+
 
 def new_interp(facts=None, flags=None, repo=None, summaries=True):
     prog = model.load(repo)
